@@ -18,6 +18,8 @@ requests and replies
                                            -> res=ok|missing:<hex>|invalid:<sorted names>|badname fs=<sorted names> st=<sorted names> must=<0|1>
   pref <caps> <detector req> <required names>   (one hand-made detector, nothing else enabled)
                                            -> same reply as pre, must=0
+  seq <kind> <l:req;req;… | n:names | c:caps> <caps;caps;…>   (one list filtered several times in a row)
+                                           -> r=<results, '|'-separated> after=<the same results read again after all calls> input=<the list afterwards> sr= sinput=
   reqd <hex detector name>                 -> ok=<0|1> must=1
   uniq                                     -> n=<count> dup=<sorted duplicate names|-> must=1
 -/
@@ -134,6 +136,30 @@ def handle (line : String) : String :=
       | .missing e => s!"res=missing:{hexE e} fs=- st=- must=0"
       | .invalid bad => s!"res=invalid:{joinWith "," (sortStrs (bad.map hexE))} fs=- st=- must=0"
     | _, _, _ => "bad-op"
+  -- operation sequences: one plugin list filtered with several capability tuples in a row. The model's filter is a pure
+  -- function, so every call's result (r), every result re-read later (after) and the input list (input) are what they are
+  | ["seq", k, src, cs] =>
+    match tablesOf? k, (cs.splitOn ";").mapM capsOf? with
+    | some (t, all), some capsSeq =>
+      let arg := String.ofList (src.toList.drop 2)
+      let input : Option (List Plugin × Bool) :=
+        if src.startsWith "l:" then
+          ((listOf arg ";").mapM capsOf?).map fun reqs =>
+            ((reqs.zip (List.range reqs.length)).map (fun (r, i) => (⟨toString i, r, []⟩ : Plugin)), false)
+        else if src.startsWith "n:" then
+          match namesOf? arg with
+          | some ns => (match fromNames t ns with | .ok ps => some (ps, true) | .error _ => none)
+          | none => none
+        else if src.startsWith "c:" then (capsOf? arg).map fun c => (fromCapabilities all c, true)
+        else none
+      match input with
+      | some (ps, sorted) =>
+        let nm := fun (xs : List Plugin) => if sorted then namesStr xs else joinWith "," (xs.map (·.name))
+        let rs := "|".intercalate (capsSeq.map fun c => nm (filterByCapabilities ps c))
+        let sp := "|".intercalate (capsSeq.map fun c => nm (specFilter ps c))
+        s!"r={rs} after={rs} input={nm ps} sr={sp} sinput={nm ps}"
+      | none => "res=badname"
+    | _, _ => "bad-op"
   | ["reqd", d] =>
     match unhex? d with
     | some d =>
